@@ -39,6 +39,10 @@ pub use data_structures::*;
 /// Useful functions
 pub(crate) mod utils;
 
+/// Accessors for external conformance harnesses (only with `--cfg pc_verif`).
+#[cfg(pc_verif)]
+pub mod verif_api;
+
 /// R1CS constraints for polynomial constraints.
 #[cfg(feature = "r1cs")]
 mod constraints;
